@@ -383,6 +383,11 @@ class RadiRouter:
         route = Route(rule)
         params = route.params
         route_ = self._match(route.pattern, route.filters)
+        if name and not overwrite:
+            # refuse before anything is registered
+            registered = self.named_routes.get(name)
+            if registered and registered is not route_:
+                raise RouteBuildError(f'Can`t register route, name `{name}` is already used')
         if route_:
             route = route_
         else:
@@ -395,9 +400,6 @@ class RadiRouter:
             route.add_method(methods, handler, meta, params)
 
         if name:
-            registered = self.named_routes.get(name)
-            if not overwrite and registered and registered is not route:
-                raise RouteBuildError(f'Can`t register route, name `{name}` is already used')
             self.named_routes[name] = route
         return route
 
